@@ -33,17 +33,64 @@ FORBIDDEN = ['io', 'os', 'package', 'debug', 'require', 'dofile', 'loadfile']
 MODE_ALPHABET = sorted(set(ord(c) for c in 'unsafeboxdSAFE '))
 
 
+class LuaObj:
+    """A Lua table of the contract stub: identity matters (two globals may name one table)."""
+
+    def __init__(self, label, entries=None):
+        self.label = label
+        self.e = dict(entries or {})
+
+    def __repr__(self):
+        return 'LuaObj(%s)' % self.label
+
+
+FORBIDDEN_IDS = {('fn', 'dofile'): 'dofile', ('fn', 'loadfile'): 'loadfile', ('fn', 'require'): 'require'}
+FORBIDDEN_LIBS = ('io', 'os', 'package', 'debug')
+
+
 class LuaModel:
+    """Object graph of a fresh interpreter: the globals table holds the base library (functions are
+    identities ('fn', name), `_G` is the globals table itself), one table per loaded library, and
+    `package.loaded` naming every loaded library and `_G` (Lua 5.4 manual 6.3)."""
+
     def __init__(self, libs, native):
         self.libs = frozenset(libs)
         self.native = native
-        self.removed = set()
+        g = LuaObj('_G')
+        for n in BASE_GLOBALS:
+            g.e[n] = ('fn', n)
+        g.e['_G'] = g
+        g.e['_VERSION'] = ('str', 'Lua 5.4')
+        self.libobj = {}
+        for lib in sorted(self.libs):
+            self.libobj[lib] = g.e[lib] = LuaObj('lib:' + lib)
+        if 'package' in self.libs:
+            g.e['require'] = ('fn', 'require')
+            loaded = LuaObj('package.loaded', dict(self.libobj))
+            loaded.e['_G'] = g
+            self.libobj['package'].e['loaded'] = loaded
+        self.cur = g
 
     def globals(self):
-        g = set(BASE_GLOBALS) | set(self.libs)
-        if 'package' in self.libs:
-            g.add('require')
-        return g - self.removed
+        """names defined in the script's global environment"""
+        return set(k for k, v in self.cur.e.items() if v is not None)
+
+    def reachable(self):
+        """forbidden facilities reachable from the global environment through any chain of table fields"""
+        seen, todo, found = set(), [self.cur], set()
+        while todo:
+            t = todo.pop()
+            if id(t) in seen:
+                continue
+            seen.add(id(t))
+            if t.label.startswith('lib:') and t.label[4:] in FORBIDDEN_LIBS:
+                found.add(t.label[4:])
+            for k, v in t.e.items():
+                if isinstance(v, LuaObj):
+                    todo.append(v)
+                elif v in FORBIDDEN_IDS:
+                    found.add(FORBIDDEN_IDS[v])
+        return found
 
 
 def stdlib_const(raw):
@@ -102,25 +149,93 @@ def install(I, env_value):
         while isinstance(v, Ref):
             v = I.deref_value(v)
         return v.f[0]
-    st['Lua::globals'] = lambda I2, a, ci, dt: Struct('LuaTable', (lua_of(a[0]),))
+    def tab(o):
+        return Struct('LuaTable', (o,))
+
+    def obj_of(x):
+        v = I.deref_value(x) if isinstance(x, Ref) else x
+        while isinstance(v, Ref):
+            v = I.deref_value(v)
+        if isinstance(v, Struct) and v.name == 'LuaTable':
+            return v.f[0]
+        raise EngineError('expected a Lua table handle, got %r' % (v,))
+
+    def to_lua(I2, val):
+        """Rust value handed to mlua -> value of the object graph (None = nil)"""
+        v = I2.deref_value(val) if isinstance(val, Ref) else val
+        if (isinstance(v, Enum) and v.vname == 'Nil') or (isinstance(v, Opaque) and v.tag == 'LuaNil') or \
+                (isinstance(v, Struct) and v.name in ('Nil', 'LuaNil')):
+            return None
+        if isinstance(v, Opaque) and v.tag == 'LuaVal':
+            return v.data
+        if isinstance(v, Struct) and v.name == 'LuaTable':
+            return v.f[0]
+        if isinstance(v, bool):
+            return ('bool', v)
+        raise Unmodelled('value handed to mlua: %r' % (v,))
+
+    def from_lua(v):
+        if v is None:
+            return Opaque('LuaNil')
+        return Opaque('LuaVal', v)
+
+    def key_of(I2, key):
+        key = I2.deref_value(key) if isinstance(key, Ref) else key
+        return bytes(as_sstr(I2, key).b).decode()
+
+    st['Lua::globals'] = lambda I2, a, ci, dt: tab(lua_of(a[0]).cur)
+    st['Lua::create_table'] = lambda I2, a, ci, dt: Ok(tab(LuaObj('new')))
+
+    def set_globals(I2, a, ci, dt):
+        lua_of(a[0]).cur = obj_of(a[1])
+        return Ok(UNIT)
+    st['Lua::set_globals'] = set_globals
 
     def table_set(I2, a, ci, dt):
-        t = I2.deref_value(a[0]) if isinstance(a[0], Ref) else a[0]
-        key = a[1]
-        key = I2.deref_value(key) if isinstance(key, Ref) else key
-        kb = bytes(as_sstr(I2, key).b).decode()
-        val = a[2]
-        isnil = (isinstance(val, Enum) and val.vname == 'Nil') or (isinstance(val, Opaque) and val.tag == 'LuaNil') or \
-                (isinstance(val, Struct) and val.name in ('Nil', 'LuaNil'))
-        if not isnil:
-            raise Unmodelled('globals().set(%s, <non-nil>)' % kb)
-        t.f[0].removed.add(kb)
+        t = obj_of(a[0])
+        kb = key_of(I2, a[1])
+        v = to_lua(I2, a[2])
+        if v is None:
+            t.e.pop(kb, None)
+        else:
+            t.e[kb] = v
         return Ok(UNIT)
     st['LuaTable::set'] = table_set
     st['Table::set'] = table_set
     st['LuaTable::raw_set'] = table_set
     st['Table::raw_set'] = table_set
     st['LuaTable::raw_remove'] = lambda I2, a, ci, dt: table_set(I2, [a[0], a[1], Opaque('LuaNil')], ci, dt)
+    st['Table::raw_remove'] = st['LuaTable::raw_remove']
+
+    def table_get(I2, a, ci, dt):
+        v = obj_of(a[0]).e.get(key_of(I2, a[1]))
+        if isinstance(v, LuaObj) and 'Table' in (dt or ''):
+            return Ok(tab(v))
+        return Ok(from_lua(v))
+    for n in ('LuaTable::get', 'Table::get', 'LuaTable::raw_get', 'Table::raw_get'):
+        st[n] = table_get
+
+    def table_contains(I2, a, ci, dt):
+        return Ok(obj_of(a[0]).e.get(key_of(I2, a[1])) is not None)
+    st['Table::contains_key'] = table_contains
+    st['LuaTable::contains_key'] = table_contains
+
+    def table_clear(I2, a, ci, dt):
+        obj_of(a[0]).e.clear()
+        return Ok(UNIT)
+    st['Table::clear'] = table_clear
+    st['LuaTable::clear'] = table_clear
+
+    def table_pairs(I2, a, ci, dt):
+        # snapshot in key order (Lua's own order is unspecified; nothing here may depend on it)
+        t = obj_of(a[0])
+        items = []
+        for k in sorted(t.e):
+            v = t.e[k]
+            items.append(Ok(Tuple(new_string(I2, k.encode()), tab(v) if False else from_lua(v))))
+        return models.ListIter(items)
+    st['Table::pairs'] = table_pairs
+    st['LuaTable::pairs'] = table_pairs
     return holder
 
 
@@ -187,11 +302,11 @@ def run_mode(task):
         safe = is_word(v, 'safe')
         unsafe = is_word(v, 'unsafe')
         default = z3.And(z3.Not(safe), z3.Not(unsafe))
-        leaked = [n for n in FORBIDDEN if n in g]
+        leaked = sorted(set(n for n in FORBIDDEN if n in g) | lua.reachable())
         if leaked or lua.native:
             viol(I, default, 'sandbox-leaks:' + ','.join(leaked + (['native-loading'] if lua.native else [])),
                  'default mode exposes %s' % (leaked + (['native module loading'] if lua.native else []),))
-        if 'debug' in g or lua.native:
+        if 'debug' in g or 'debug' in leaked or lua.native:
             viol(I, z3.Not(unsafe), 'unsafe-features-outside-unsafe-mode', 'debug / native loading available although the mode is not "unsafe"')
         if not {'io', 'os', 'package'} <= g:
             viol(I, z3.Or(safe, unsafe), 'safe-mode-misses-libraries', 'io/os/package missing in safe or unsafe mode')
@@ -214,16 +329,35 @@ def run_mode(task):
 
 PROBE = '''
 -- what the script can reach is sampled twice: while the chunk is loaded (top level) and inside
--- validate(); a name counts as present if it was reachable at either moment
+-- validate(); a name counts as present if it was reachable at either moment. Reachable = a field of
+-- that name in any table that can be reached from the global environment (_ENV, _G, the string
+-- metatable) through table fields and metatables.
 local names = {"io", "os", "package", "debug", "require", "dofile", "loadfile"}
-local at_load = {}
-for _, n in ipairs(names) do
-  if _G[n] ~= nil then at_load[n] = true end
+local wanted = {}
+for _, n in ipairs(names) do wanted[n] = true end
+local function reach(found)
+  local seen, todo = {}, {_ENV, _G, getmetatable("")}
+  while #todo > 0 do
+    local t = todo[#todo]
+    todo[#todo] = nil
+    if type(t) == "table" and not seen[t] then
+      seen[t] = true
+      for k, v in next, t do
+        if type(k) == "string" and wanted[k] and v ~= nil then found[k] = true end
+        if type(v) == "table" then todo[#todo + 1] = v end
+      end
+      local mt = getmetatable(t)
+      if type(mt) == "table" then todo[#todo + 1] = mt end
+    end
+  end
 end
+local found = {}
+reach(found)
 function validate(ctx, content)
+  reach(found)
   local present = {}
   for _, n in ipairs(names) do
-    if _G[n] ~= nil or at_load[n] then present[#present + 1] = n end
+    if found[n] then present[#present + 1] = n end
   end
   local native = false
   if package ~= nil and package.loadlib ~= nil then
